@@ -23,6 +23,8 @@ pub struct TV<S> {
     pub read_done: bool,
     /// ghost counter: how many times poll_ready has answered Pending (bounded-retry clause, C14)
     pub np: nat,
+    /// ghost counter: how many times the inbound side has been polled (C04/C06: control traffic processed)
+    pub nr: nat,
 }
 
 #[verifier::external_body]
@@ -37,7 +39,7 @@ impl<S, I> Transport<S, I> {
     pub fn poll_ready(&mut self, cx: &mut TaskCx) -> (r: Poll<Result<(), TErr>>)
         ensures
             final(self)@.sent == old(self)@.sent, final(self)@.unflushed == old(self)@.unflushed, final(self)@.closed == old(self)@.closed,
-            final(self)@.flush_reg == old(self)@.flush_reg, final(self)@.read_reg == old(self)@.read_reg, final(self)@.read_done == old(self)@.read_done,
+            final(self)@.flush_reg == old(self)@.flush_reg, final(self)@.read_reg == old(self)@.read_reg, final(self)@.read_done == old(self)@.read_done, final(self)@.nr == old(self)@.nr,
             match r {
                 Poll::Ready(Ok(())) => final(self)@.ready && final(self)@.failed == old(self)@.failed && final(self)@.np == old(self)@.np,
                 Poll::Ready(Err(_)) => final(self)@.failed && final(self)@.np == old(self)@.np,
@@ -53,7 +55,7 @@ impl<S, I> Transport<S, I> {
             !old(self)@.closed, // @C14
         ensures
             !final(self)@.ready, final(self)@.failed == old(self)@.failed, final(self)@.closed == old(self)@.closed,
-            final(self)@.read_reg == old(self)@.read_reg, final(self)@.read_done == old(self)@.read_done, final(self)@.np == old(self)@.np,
+            final(self)@.read_reg == old(self)@.read_reg, final(self)@.read_done == old(self)@.read_done, final(self)@.np == old(self)@.np, final(self)@.nr == old(self)@.nr,
             r is Ok ==> final(self)@.sent == old(self)@.sent.push(item) && final(self)@.unflushed == old(self)@.unflushed + 1,
             r is Err ==> final(self)@.sent == old(self)@.sent && final(self)@.unflushed == old(self)@.unflushed,
             final(self)@.flush_reg == false,
@@ -63,7 +65,7 @@ impl<S, I> Transport<S, I> {
     pub fn poll_flush(&mut self, cx: &mut TaskCx) -> (r: Poll<Result<(), TErr>>)
         ensures
             final(self)@.sent == old(self)@.sent, final(self)@.ready == old(self)@.ready, final(self)@.closed == old(self)@.closed,
-            final(self)@.read_reg == old(self)@.read_reg, final(self)@.read_done == old(self)@.read_done, final(self)@.np == old(self)@.np,
+            final(self)@.read_reg == old(self)@.read_reg, final(self)@.read_done == old(self)@.read_done, final(self)@.np == old(self)@.np, final(self)@.nr == old(self)@.nr,
             final(self)@.ready_reg == old(self)@.ready_reg,
             match r {
                 Poll::Ready(Ok(())) => final(self)@.unflushed == 0 && final(self)@.failed == old(self)@.failed,
@@ -76,7 +78,7 @@ impl<S, I> Transport<S, I> {
     pub fn poll_close(&mut self, cx: &mut TaskCx) -> (r: Poll<Result<(), TErr>>)
         ensures
             final(self)@.sent == old(self)@.sent,
-            final(self)@.read_reg == old(self)@.read_reg, final(self)@.read_done == old(self)@.read_done, final(self)@.np == old(self)@.np,
+            final(self)@.read_reg == old(self)@.read_reg, final(self)@.read_done == old(self)@.read_done, final(self)@.np == old(self)@.np, final(self)@.nr == old(self)@.nr,
             match r {
                 Poll::Ready(Ok(())) => final(self)@.unflushed == 0 && final(self)@.closed && final(self)@.failed == old(self)@.failed,
                 Poll::Ready(Err(_)) => final(self)@.failed,
@@ -90,7 +92,7 @@ impl<S, I> Transport<S, I> {
         ensures
             final(self)@.sent == old(self)@.sent, final(self)@.ready == old(self)@.ready, final(self)@.failed == old(self)@.failed,
             final(self)@.closed == old(self)@.closed, final(self)@.unflushed == old(self)@.unflushed, final(self)@.flush_reg == old(self)@.flush_reg,
-            final(self)@.ready_reg == old(self)@.ready_reg, final(self)@.np == old(self)@.np,
+            final(self)@.ready_reg == old(self)@.ready_reg, final(self)@.np == old(self)@.np, final(self)@.nr == old(self)@.nr + 1,
             match r {
                 Poll::Ready(Some(_)) => final(self)@.read_done == old(self)@.read_done,
                 Poll::Ready(None) => final(self)@.read_done,
